@@ -141,7 +141,14 @@ type pCase struct {
 var qualRe = regexp.MustCompile(`\b([A-Za-z_][A-Za-z0-9_]*)\.([A-Z][A-Za-z0-9_]*)`)
 
 // localType strips the package qualifier when the type is used inside its own package and reports imports needed.
+// importPrefix is the import path under which the case's packages live (caseModule, or caseModule/<id> inside a shared module)
+var importPrefixDefault = caseModule
+
 func localType(expr, inPkg string, imports map[string]bool, pkgs map[string]bool) string {
+	return localTypeP(expr, inPkg, imports, pkgs, importPrefixDefault)
+}
+
+func localTypeP(expr, inPkg string, imports map[string]bool, pkgs map[string]bool, prefix string) string {
 	return qualRe.ReplaceAllStringFunc(expr, func(m string) string {
 		sm := qualRe.FindStringSubmatch(m)
 		q, n := sm[1], sm[2]
@@ -157,7 +164,7 @@ func localType(expr, inPkg string, imports map[string]bool, pkgs map[string]bool
 			imports["github.com/gopher-fleece/runtime"] = true
 		default:
 			if pkgs[q] {
-				imports[caseModule+"/"+q] = true
+				imports[prefix+"/"+q] = true
 			}
 		}
 		return m
@@ -239,6 +246,15 @@ type fileKey struct{ pkg, file string }
 type bodyHook func(c pCtrl, m pMethod, retLocal []string, imports map[string]bool) string
 
 func writeProject(dir string, pc *pCase, repo string, hook bodyHook) error {
+	return writeProjectP(dir, pc, repo, hook, caseModule, true)
+}
+
+// writeProjectP writes the case's packages under dir; prefix is their import path prefix; withModule also writes go.mod/go.sum and the
+// default authorization package.
+func writeProjectP(dir string, pc *pCase, repo string, hook bodyHook, prefix string, withModule bool) error {
+	localType := func(expr, inPkg string, imports map[string]bool, pkgs map[string]bool) string {
+		return localTypeP(expr, inPkg, imports, pkgs, prefix)
+	}
 	pkgs := map[string]bool{}
 	for _, c := range pc.Ctrls {
 		pkgs[c.Pkg] = true
@@ -439,9 +455,12 @@ func writeProject(dir string, pc *pCase, repo string, hook bodyHook) error {
 		}
 	}
 
+	if !withModule {
+		return nil
+	}
 	// authorization package (user code; the router family replaces it with a scripted, recording one)
 	auth := "package auth\n\nimport (\n\t\"context\"\n\n\t\"github.com/gopher-fleece/runtime\"\n)\n\n" +
-		"func GleeceRequestAuthorization(ctx context.Context, check runtime.SecurityCheck) (context.Context, *runtime.SecurityError) {\n\treturn ctx, nil\n}\n"
+		"func GleeceRequestAuthorization(ctx context.Context, engineCtx any, check runtime.SecurityCheck) (context.Context, *runtime.SecurityError) {\n\treturn ctx, nil\n}\n"
 	if _, err := os.Stat(filepath.Join(dir, "auth", "auth.go")); err != nil {
 		if err := os.MkdirAll(filepath.Join(dir, "auth"), 0o755); err != nil {
 			return err
@@ -472,6 +491,10 @@ func writeProject(dir string, pc *pCase, repo string, hook bodyHook) error {
 
 // renderConfig builds the gleece.config.json document for a case; version/outputs can be overridden for the second-dialect run.
 func renderConfig(cfg pCfg, version, specOut string) ([]byte, error) {
+	return renderConfigP(cfg, version, specOut, caseModule)
+}
+
+func renderConfigP(cfg pCfg, version, specOut, prefix string) ([]byte, error) {
 	globs := cfg.Globs
 	if len(globs) == 0 {
 		globs = []string{"./**/*.go"}
@@ -497,7 +520,7 @@ func renderConfig(cfg pCfg, version, specOut string) ([]byte, error) {
 		"engine":                  cfg.Engine,
 		"outputPath":              routesOut,
 		"skipGenerateDateComment": true,
-		"authorizationConfig":     map[string]any{"authFileFullPackageName": caseModule + "/auth", "enforceSecurityOnAllRoutes": cfg.Enforce},
+		"authorizationConfig":     map[string]any{"authFileFullPackageName": prefix + "/auth", "enforceSecurityOnAllRoutes": cfg.Enforce},
 	}
 	if cfg.Perms != "" {
 		routes["outputFilePerms"] = cfg.Perms
